@@ -161,7 +161,7 @@ theorem WF_run (ops : List Op) : ∃ v, runOps Var.zero ops = .ok v ∧ v.WF :=
   let ⟨v', e, w, _⟩ := runOps_spec ops Var.zero Var.WF.zero_var
   ⟨v', e, w⟩
 
-/-- One operation outside the recorded divergences is the bash operation on the map. -/
+/-- One operation outside the recorded divergence is the bash operation on the map. -/
 theorem op_refine (v : Var) (op : Op) (h : v.WF) (ok : opOK v op = true) :
     ∃ v', applyOp v op = .ok v' ∧ v'.WF ∧ v'.abs = specOp v.abs op :=
   let ⟨v', e, w, ab⟩ := applyOp_spec v op h
